@@ -22,7 +22,10 @@ Valid ==
     p.st = "ok" =>
       LET T == Strip(p.toks)  v == CaptureVerdict(TagTop(T), o.path, o.caps) IN
       /\ (v = "ok") \/ Report([t |-> "DISAGREE", prop |-> "C04", what |-> v, id |-> o.id, rec |-> case, path |-> o.path,
-                                 x |-> [rooted |-> RootedTreeFirst(T), inrep |-> TreeInRep(T), nested |-> TreeNested(T, 0)]])
+                                 x |-> [rooted |-> RootedTreeFirst(T), inrep |-> TreeInRep(T), nested |-> TreeNested(T, 0),
+                                        (* exact deviation switch: the capture vector is explained by a segmentation   *)
+                                        (* under the pinned, position-dependent encodings (KnownFindings!TagImpl)      *)
+                                        langdev |-> (CaptureVerdictS(TagImplTop(T), o.path, o.caps, TRUE) = "ok")]])
       /\ o.owned_eq \/ Report([t |-> "DISAGREE", prop |-> "C04", what |-> "owned_captures_differ_from_borrowed", id |-> o.id,
-                                rec |-> case, path |-> o.path, x |-> [rooted |-> FALSE, inrep |-> FALSE, nested |-> FALSE]])
+                                rec |-> case, path |-> o.path, x |-> [rooted |-> FALSE, inrep |-> FALSE, nested |-> FALSE, langdev |-> FALSE]])
 =============================================================================
